@@ -693,15 +693,16 @@ func (c *Conn) closeLocked() {
 	if DebugCloseStack != nil {
 		DebugCloseStack(c.id)
 	}
-	if !c.wclosed && !c.reset && c.linger0 {
-		// abortive close: undelivered data is dropped, the peer is reset
+	if !c.reset && c.linger0 {
+		// abortive close (also after a half-close): whatever has not been delivered
+		// yet - data and a pending FIN - is dropped, the peer is reset
 		c.wclosed = true
 		k.countLocked("net.close_linger0_rst")
 		out := c.out
 		n := 0
 		for i := 0; i < len(out.queue); i++ {
 			ch := out.queue[i]
-			if len(ch.data) > 0 && !ch.fin && !ch.rst {
+			if !ch.rst {
 				out.bytes -= len(ch.data)
 				continue
 			}
